@@ -17,7 +17,7 @@ class Prop:
             "(outbound branches, inbound transport branches, handshake branches, key rotation, staged overflow > 128 containers, "
             "overflow then down/up, counter limit with out-of-order re-staging, down/up cycles, persistent keepalive, removal, "
             "identity change, close with packets staged, close while down, rate-limited handshakes under load with a consumed cookie, handshake-queue overflow with all handshake workers parked in Bind.Send, TUN reads that return packets together with ErrTooManySegments followed by close / by a fatal read, containers left in stopped peers' autodraining queues flushed by Start / collected after removal, removeall, close, fatal read, removal while the sequential receiver is held in tun.Write and a datagram arrives, peers configured while the interface is down, Stop placed between the entry test and the hand-off of SendStagedPackets) + random plans from one PRNG; counts read after every "
-            "step, Close followed by two runtime.GC(); 29 stall scenarios with very small pools + 4 rounds of two goroutines waiting on an exhausted message-buffer pool while a two-element batch is released; non-trivial = the plan reaches "
+            "step, Close followed by two runtime.GC(); 29 stall scenarios with very small pools + 4 rounds of two goroutines waiting on an exhausted message-buffer pool while a two-element batch is released + 4 rounds with two waiters and exactly ONE buffer returned; non-trivial = the plan reaches "
             "at least 6 different branch kinds and at least one step with packets staged; distinct by content hash")
     assumptions = ["pools are bounded through the package variable device.VerifPoolMax (build tag verif) so that WaitPool.count is maintained",
                    "counts are read at quiescent points only (sim queues empty, device queues empty, all device goroutines parked twice in a row)",
@@ -58,8 +58,8 @@ class Prop:
             "actions_not_applicable": sum(c.get("skipped", 0) for c in cases),
             "stall_scenarios": len(stalls), "stall_pool_max": sorted({c.get("pool_max") for c in stalls}),
             "stalled": [c["stall"] for c in stalls if c.get("stall")],
-            "two_waiter_rounds": sum(1 for c in stalls if c["gen"] == "stall:two-waiters"),
-            "two_waiter_rounds_inconclusive": sum(1 for c in stalls if c["gen"] == "stall:two-waiters" and c.get("skipped")),
+            "two_waiter_rounds": sum(1 for c in stalls if c["gen"].startswith("stall:two-waiters")),
+            "two_waiter_rounds_inconclusive": sum(1 for c in stalls if c["gen"].startswith("stall:two-waiters") and c.get("skipped")),
         }
         return files, cases
 
